@@ -33,7 +33,7 @@ def run_one(prop: str, patch: str, tier: str = "quick") -> tuple[bool, str]:
         p = subprocess.run(["patch", strip, "-s", "-f", "-i", patch], cwd=tmp, capture_output=True, text=True)
         if p.returncode != 0:
             return False, f"patch does not apply: {p.stdout[-300:]}{p.stderr[-300:]}"
-        env = dict(os.environ, OPV_REPO=tmp, OPV_JOBS=os.environ.get("OPV_JOBS", "8"))
+        env = dict(os.environ, OPV_REPO=tmp, OPV_JOBS=os.environ.get("OPV_JOBS", "8"), OPV_OUT_DIR=os.path.join(tmp, "out"))
         env.pop("OPV_EXTRA_FINDINGS", None)
         c = subprocess.run(["/venv/bin/python", "-m", "opv.cli", "check", prop, "--tier", tier], cwd=VERIF, env=env,
                            capture_output=True, text=True, timeout=3600)
